@@ -39,6 +39,7 @@ func TestProp(t *testing.T) {
 				return c
 			}
 		}, Check: checkSVD},
+		kit.Clause[intSVDCase]{Name: "C17/matrix/svd-integer", Quick: 20000, Thorough: 400000, Gen: genIntSVD, Check: checkIntSVD},
 		kit.Clause[matCase]{Name: "C17/matrix/eigenvalues", Quick: 30000, Thorough: 480000, Gen: func(t *rapid.T) matCase {
 			return genMatCase(t, []int{2, 3, 3}, both, true)
 		}, Check: checkEigen},
